@@ -471,7 +471,15 @@ func verOf(v6 bool, payload []byte, macs int) (ver int, ok bool) {
 func runFileRefresh(ctx *fw.Ctx, c *fileCase) {
 	v6 := c.V6
 	j := &ChainJob{HasV4: !v6, HasV6: v6, Files: map[string]string{"leases.txt": versionFile(v6, c.Macs, 11, "")}}
-	chain := []PlugConf{{"file", []string{"{DIR}/leases.txt", "autorefresh"}}}
+	confPath := "{DIR}/leases.txt"
+	switch c.Seed % 4 {
+	case 1: // the configured path is a symlink to the file kept in another directory (rewrites go to the real file)
+		j.Symlinks = map[string]string{"conf/leases.link": "leases.txt"}
+		confPath = "{DIR}/conf/leases.link"
+	case 2: // an unclean spelling of the same path
+		confPath = "{DIR}//./leases.txt"
+	}
+	chain := []PlugConf{{"file", []string{confPath, "autorefresh"}}}
 	if v6 {
 		j.V6 = chain
 	} else {
@@ -557,7 +565,7 @@ func runFileRefresh(ctx *fw.Ctx, c *fileCase) {
 		next += 2
 	}
 	out := RunChain(j, ctx.Scratch, 5*time.Minute)
-	desc := fmt.Sprintf("autorefresh v6=%v macs=%d steps=%v", v6, c.Macs, c.Steps)
+	desc := fmt.Sprintf("autorefresh v6=%v macs=%d path=%s steps=%v", v6, c.Macs, confPath, c.Steps)
 	ctx.Eval("C10", int64(len(c.Steps)))
 	if out.SetupErr != "" {
 		ctx.Viol("C10", "wellformed-file-rejected", "%s: setup failed: %s", desc, out.SetupErr)
